@@ -769,15 +769,18 @@ func runC30(c *Ctx) {
 	}
 	c.ob("C30.b validator-shape", "mqtt.IsValidFilter rejects the empty subscription filter", c.pos(f.Pos()), has("builtin.len(filter) == 0"), "")
 	c.ob("C30.b validator-shape", "mqtt.IsValidFilter compares the position of '#' with the last position", c.pos(f.Pos()), has("strings.IndexRune(filter, 35)", "builtin.len(filter) - 1"), "")
-	c.ob("C30.b validator-shape", "mqtt.IsValidFilter rejects '+' in publish topics", c.pos(f.Pos()), has("strings.ContainsRune(filter, 43)"), "")
-	c.ob("C30.b validator-shape", "mqtt.IsValidFilter rejects '#' in publish topics", c.pos(f.Pos()), has("strings.ContainsRune(filter, 35)"), "")
+	rts := runeTests(f)
+	c.ob("C30.b validator-shape", "mqtt.IsValidFilter rejects '+' in publish topics", c.pos(f.Pos()), looksFor(rts, "filter", '+'), "")
+	c.ob("C30.b validator-shape", "mqtt.IsValidFilter rejects '#' in publish topics", c.pos(f.Pos()), looksFor(rts, "filter", '#'), "")
 	c.ob("C30.b validator-shape", "mqtt.IsValidFilter rejects the $SYS prefix for publish topics", c.pos(f.Pos()), has("strings.EqualFold(", "mqtt.SysPrefix"), "")
 	c.ob("C30.b validator-shape", "mqtt.IsValidFilter treats $share specially", c.pos(f.Pos()), has("strings.EqualFold(", "mqtt.SharePrefix"), "")
-	c.ob("C30.b validator-shape", "mqtt.IsValidFilter rejects wildcards in the share name", c.pos(f.Pos()), has("strings.ContainsRune(mqtt.isolateParticle(filter, 1)#0, 43)") && has("strings.ContainsRune(mqtt.isolateParticle(filter, 1)#0, 35)"), "")
+	c.ob("C30.b validator-shape", "mqtt.IsValidFilter rejects wildcards in the share name", c.pos(f.Pos()), looksFor(rts, "mqtt.isolateParticle(filter, 1)#0", '+') && looksFor(rts, "mqtt.isolateParticle(filter, 1)#0", '#'), "")
 	// publish-only tests are under forPublish
-	for _, ci := range c.callsNamed(f, "strings.ContainsRune") {
-		if describe(ci.Common().Args[0]) == "filter" {
-			c.underFact("C30.b validator-shape", fmt.Sprintf("mqtt.IsValidFilter: wildcard ban %s applies to publish topics only", describe(ci.(ssa.Value))), ci, textEq("forPublish"), true, "")
+	for _, rt := range rts {
+		if rt.contains && rt.subject == "filter" {
+			for _, r := range rt.runes {
+				c.underFact("C30.b validator-shape", fmt.Sprintf("mqtt.IsValidFilter: wildcard ban of %q in the whole filter applies to publish topics only", r), rt.call, textEq("forPublish"), true, "")
+			}
 		}
 	}
 	// level-by-level inspection
